@@ -27,7 +27,7 @@ ASSUMPTIONS = [
     "a ValueError raised at construction, build or first call counts as 'rejected up front'; any other exception type there, and any exception after acceptance, is a violation",
 ]
 _state = {}
-KINDS = ["lattice", "pwl", "linear", "categorical", "kfl", "cdf", "rtl", "premade", "lattice_constraints", "synonyms"]
+KINDS = ["lattice", "pwl", "linear", "categorical", "kfl", "cdf", "rtl", "premade", "lattice_constraints", "synonyms", "single_fault"]
 
 
 def setup(ctx):
@@ -548,6 +548,128 @@ def _run_premade(ctx, rng):
   return _life_cycle(ctx, "premade", cfg, construct, bae)
 
 
+def _run_single_fault(ctx, rng):
+  """A valid configuration of PWLCalibration / Linear / CategoricalCalibration / KFL with exactly one documented rule broken: the
+  reference oracle must name the fault and the library must reject it with ValueError."""
+  tf, tfl = _state["tf"], _state["tfl"]
+  from tflv.oracles import validity
+  t = lambda *a: a
+  which = pick(rng, ["pwl", "linear", "categorical", "kfl"])
+  if which == "pwl":
+    mono = pick(rng, ["none", "increasing", "decreasing"])
+    cfg = dict(input_keypoints=[0.0, 1.0, 2.5], units=pick(rng, [1, 2]), output_min=0.0, output_max=1.0, clamp_min=False, clamp_max=False,
+               monotonicity=mono, convexity="none", is_cyclic=False, kernel_initializer="equal_heights", impute_missing=False,
+               missing_input_value=None, missing_output_value=None, num_projection_iterations=2, split_outputs=False, input_keypoints_type="fixed")
+    fault = pick(rng, ["unsorted", "duplicate", "single", "min_gt_max", "mono_value", "cyclic_mono", "cyclic_convex", "keypoints_type"])
+    if fault == "unsorted":
+      cfg["input_keypoints"] = [0.0, 2.0, 1.0]
+    elif fault == "duplicate":
+      cfg["input_keypoints"] = pick(rng, [[0.0, 1.0, 1.0, 2.0], [0.0, 0.0, 1.0]])
+    elif fault == "single":
+      cfg["input_keypoints"] = [0.5]
+    elif fault == "min_gt_max":
+      cfg["output_min"], cfg["output_max"] = 1.0, 0.5
+    elif fault == "mono_value":
+      cfg["monotonicity"] = pick(rng, [2, "bogus"])
+    elif fault == "cyclic_mono":
+      cfg["is_cyclic"], cfg["monotonicity"] = True, "increasing"
+    elif fault == "cyclic_convex":
+      cfg["is_cyclic"], cfg["monotonicity"], cfg["convexity"] = True, "none", "convex"
+    else:
+      cfg["input_keypoints_type"] = "bogus"
+    reason = validity.pwl_must_reject(cfg)
+    x = np.array([[0.0], [1.0], [0.3]], dtype=np.float32)
+
+    def bae(layer, phase):
+      if phase == "build":
+        layer(tf.constant(x))
+        return True
+      return _project_and_eval(layer, rng, tf.constant(x))
+    ctx.cls("single_fault:pwl/" + fault)
+    return _life_cycle(ctx, "PWLCalibration", cfg, lambda: tfl.layers.PWLCalibration(**cfg), bae, must_reject=reason or ("injected fault: " + fault))
+  if which == "linear":
+    n = 3
+    cfg = dict(num_input_dims=n, units=pick(rng, [1, 2]), monotonicities=[1, 1, 0], monotonic_dominances=None, range_dominances=None,
+               input_min=[0.0, 0.0, None], input_max=[1.0, 2.0, None], use_bias=True, normalization_order=None)
+    fault = pick(rng, ["mono_len", "mono_value", "mdom_free", "rdom_free", "rdom_no_range", "min_gt_max", "conflict", "both_kinds", "dim_range", "rdom_empty_range"])
+    if fault == "mono_len":
+      cfg["monotonicities"] = [1, 1]
+    elif fault == "mono_value":
+      cfg["monotonicities"] = [1, 2, 0]
+    elif fault == "mdom_free":
+      cfg["monotonic_dominances"] = [t(0, 2)]
+    elif fault == "rdom_free":
+      cfg["range_dominances"] = [t(0, 2)]
+    elif fault == "rdom_no_range":
+      cfg["range_dominances"] = [t(0, 1)]
+      cfg["input_max"] = [1.0, None, None]
+    elif fault == "min_gt_max":
+      cfg["input_min"] = [2.0, 0.0, None]
+    elif fault == "conflict":
+      cfg["monotonic_dominances"] = [t(0, 1), t(1, 0)]
+    elif fault == "both_kinds":
+      cfg["monotonic_dominances"], cfg["range_dominances"] = [t(0, 1)], [t(1, 0)]
+    elif fault == "dim_range":
+      cfg["monotonic_dominances"] = [t(0, 5)]
+    else:
+      cfg["range_dominances"] = [t(0, 1)]
+      cfg["input_min"], cfg["input_max"] = [0.0, 1.0, None], [1.0, 1.0, None]
+    reason = validity.linear_must_reject(cfg)
+    units = cfg["units"]
+    x = rng.normal(size=(3, n) if units == 1 else (3, units, n)).astype(np.float32)
+
+    def bae(layer, phase):
+      if phase == "build":
+        layer(tf.constant(x))
+        return True
+      return _project_and_eval(layer, rng, tf.constant(x))
+    ctx.cls("single_fault:linear/" + fault)
+    return _life_cycle(ctx, "Linear", cfg, lambda: tfl.layers.Linear(**cfg), bae, must_reject=reason or ("injected fault: " + fault))
+  if which == "categorical":
+    cfg = dict(num_buckets=3, units=1, output_min=0.0, output_max=1.0, monotonicities=[t(0, 1)], kernel_initializer="uniform",
+               default_input_value=None, split_outputs=False)
+    fault = pick(rng, ["pair_range", "min_gt_max", "negative_index"])
+    if fault == "pair_range":
+      cfg["monotonicities"] = [t(0, 3)]
+    elif fault == "min_gt_max":
+      cfg["output_min"], cfg["output_max"] = 1.0, 0.0
+    else:
+      cfg["monotonicities"] = [t(-1, 1)]
+    reason = validity.categorical_must_reject(cfg)
+    x = np.array([[0], [2]], dtype=np.int32)
+
+    def bae(layer, phase):
+      if phase == "build":
+        layer(tf.constant(x))
+        return True
+      return _project_and_eval(layer, rng, tf.constant(x))
+    ctx.cls("single_fault:categorical/" + fault)
+    return _life_cycle(ctx, "CategoricalCalibration", cfg, lambda: tfl.layers.CategoricalCalibration(**cfg), bae, must_reject=reason or ("injected fault: " + fault))
+  dims = 2
+  cfg = dict(lattice_sizes=3, units=1, num_terms=2, monotonicities=[1, 0], output_min=0.0, output_max=1.0, clip_inputs=True)
+  fault = pick(rng, ["size1", "units0", "terms0", "mono_decreasing", "mono_len"])
+  if fault == "size1":
+    cfg["lattice_sizes"] = 1
+  elif fault == "units0":
+    cfg["units"] = 0
+  elif fault == "terms0":
+    cfg["num_terms"] = 0
+  elif fault == "mono_decreasing":
+    cfg["monotonicities"] = [-1, 0]
+  else:
+    cfg["monotonicities"] = [1, 0, 0]
+  reason = validity.kfl_must_reject(cfg, dims)
+  x = rng.uniform(0, 1, size=(3, dims)).astype(np.float32)
+
+  def bae(layer, phase):
+    if phase == "build":
+      layer(tf.constant(x))
+      return True
+    return _project_and_eval(layer, rng, tf.constant(x))
+  ctx.cls("single_fault:kfl/" + fault)
+  return _life_cycle(ctx, "KroneckerFactoredLattice", cfg, lambda: tfl.layers.KroneckerFactoredLattice(**cfg), bae, must_reject=reason or ("injected fault: " + fault))
+
+
 def _run_synonyms(ctx, rng):
   """Two spellings of the same configuration must give bitwise identical
   projections and outputs."""
@@ -636,7 +758,7 @@ def run_case(ctx, case):
   rng = np.random.RandomState(case["seed"])
   fn = {"lattice": _run_lattice, "lattice_constraints": _run_lattice_constraints, "pwl": _run_pwl, "linear": _run_linear,
         "categorical": _run_categorical, "kfl": _run_kfl, "cdf": _run_cdf, "rtl": _run_rtl, "premade": _run_premade,
-        "synonyms": _run_synonyms}[case["kind"]]
+        "synonyms": _run_synonyms, "single_fault": _run_single_fault}[case["kind"]]
   ctx.cls("kind:" + case["kind"])
   _state["last_cfg"] = None
   if case.get("scenario"):
